@@ -218,6 +218,10 @@ func (e *Exec) rtIntrinsic(name string, fn *ssa.Function, args []Value) (Value, 
 		e.addPC(tb.UleRaw(cls, tb.BV(3, 8)))
 		e.addNondet(NondetRec{Name: n + "_class", Kind: "uint", T: cls})
 		junk := e.nondetBytes(n+"_junk", 6, false, true)
+		for i := 0; i < 6; i++ {
+			// protobuf strings are UTF-8: the junk spelling ranges over ASCII
+			e.addPC(tb.Ult(e.byteAt(junk, i), tb.BV(0x80, 8)))
+		}
 		bz := e.nondetBytes(n+"_bytes", 20, false, false)
 		e.addPC(tb.Eq(bz.len, tb.BV(20, 64)))
 		bz.len, bz.gocap, bz.minLen = tb.BV(20, 64), tb.BV(20, 64), 20
